@@ -194,6 +194,71 @@ pub fn cli(out: &mut Out, dir: &str, file: &GenFile, tt: &TT, rng: &mut Rng, wha
                 }
             }
         }
+        "count-stdin" => {
+            // the model piped to stdin instead of `-i FILE`
+            let req = "CLI count, model on stdin".to_string();
+            out.eval(Some(format!("{text}|{req}")));
+            let mut cmd = Command::new(bin_path());
+            if matches!(file.fmt, Fmt::D4) { cmd.arg("-t").arg(n.to_string()); }
+            cmd.arg("count").stdin(Stdio::piped()).stdout(Stdio::piped()).stderr(Stdio::null());
+            let got = cmd.spawn().ok().and_then(|mut c| { use std::io::Write; c.stdin.take().unwrap().write_all(format!("{}\n", text).as_bytes()).ok()?; let o = c.wait_with_output().ok()?; if o.status.success() { Some(String::from_utf8_lossy(&o.stdout).to_string()) } else { None } });
+            match got { None => out.fail("cli-count-stdin", &text, &req, "non-zero exit", "a count"), Some(o) => { let want = tt.count().to_string(); if o.trim() != want { out.fail("cli-count-stdin", &text, &req, o.trim(), &want); } } }
+        }
+        "save" => {
+            // `--save-ddnnf PATH` without and with a subcommand before it
+            let saved = format!("{dir}/cli_saved.nnf");
+            let _ = std::fs::remove_file(&saved);
+            let with_sub = rng.chance(0.5);
+            let mut args = vec!["--save-ddnnf".to_string(), saved.clone()];
+            if with_sub { args.push("count".into()); args.push(if rng.chance(0.5) { "1".into() } else { "-1".into() }); }
+            let req = format!("CLI {}", args.join(" "));
+            out.eval(Some(format!("{text}|{req}")));
+            match run(&model, file, &args) {
+                None => out.fail("cli-save", &text, &req, "non-zero exit", "a saved file"),
+                Some(_) => {
+                    let content = std::fs::read_to_string(&saved).unwrap_or_default();
+                    let lines: Vec<String> = content.lines().map(|l| l.trim_end().to_string()).collect();
+                    let hdr: Vec<&str> = lines.first().map(|l| l.split_whitespace().collect()).unwrap_or_default();
+                    if hdr.len() != 4 || hdr[0] != "nnf" || hdr[3] != n.to_string() || hdr[1] != (lines.len().max(1) - 1).to_string() { out.fail("cli-save", &text, &req, &lines.first().cloned().unwrap_or_default(), &format!("nnf {} _ {}", lines.len().max(1) - 1, n)); return; }
+                    match guarded(|| crate::gen::eval_c2d_text(&lines, n)) {
+                        Ok(stt) => if stt != *tt { out.fail("cli-save", &text, &req, &format!("saved file denotes {}", stt.to_string01()), &tt.to_string01()); },
+                        Err(e) => out.fail("cli-save", &text, &req, &format!("malformed file: {e}"), "a c2d file"),
+                    }
+                }
+            }
+        }
+        "stream-queries" | "stream" => {
+            // a few protocol lines through the binary; the replies must be those of the library handler, line by line
+            let mut lines: Vec<String> = Vec::new();
+            for _ in 0..(2 + rng.below(6)) {
+                let a = rand_lits(rng, n, 1, 2);
+                lines.push(match rng.below(9) {
+                    0 => "count".to_string(), 1 => format!("count a {}", s(&a).join(" ")), 2 => format!("sat a {}", s(&a).join(" ")),
+                    3 => "core".to_string(), 4 => format!("enum l {}", 1 + rng.below(3)), 5 => format!("random l 2 s {}", rng.below(50)),
+                    6 => "frobnicate 1".to_string(), 7 => "count a".to_string(), _ => format!("count v {}", s(&a).join(" ")) });
+            }
+            let req = format!("CLI {what}: {}", lines.join(" | "));
+            out.eval(Some(format!("{text}|{req}")));
+            let Ok(mut d) = crate::common::load(file) else { return };
+            let want: Vec<String> = lines.iter().map(|l| guarded(|| d.handle_stream_msg(l)).unwrap_or_else(|e| format!("panic: {e}"))).collect();
+            let got: Option<String> = if what == "stream-queries" {
+                let qfile = format!("{dir}/cli_stream_queries.txt");
+                std::fs::write(&qfile, lines.join("\n") + "\n").unwrap();
+                run(&model, file, &["stream-queries".to_string(), qfile])
+            } else {
+                let mut cmd = Command::new(bin_path());
+                cmd.arg("-i").arg(&model);
+                if matches!(file.fmt, Fmt::D4) { cmd.arg("-t").arg(n.to_string()); }
+                cmd.arg("stream").stdin(Stdio::piped()).stdout(Stdio::piped()).stderr(Stdio::null());
+                let with_exit = rng.chance(0.5);
+                cmd.spawn().ok().and_then(|mut c| { use std::io::Write; let mut input = lines.join("\n") + "\n"; if with_exit { input.push_str("exit\n"); }
+                    c.stdin.take().unwrap().write_all(input.as_bytes()).ok()?; let o = c.wait_with_output().ok()?; if o.status.success() { Some(String::from_utf8_lossy(&o.stdout).to_string()) } else { None } })
+            };
+            match got {
+                None => out.fail("cli-stream", &text, &req, "non-zero exit", "one reply per line"),
+                Some(o) => { let g: Vec<&str> = o.lines().collect(); if g.len() != want.len() || g.iter().zip(&want).any(|(a, b)| a.trim_end() != b.trim_end()) { out.fail("cli-stream", &text, &req, &g.join(" | "), &want.join(" | ")); } }
+            }
+        }
         _ => {}
     }
 }
